@@ -101,6 +101,7 @@ def run(ctx):
         hist = []
         n_agg = 0
         inputs_seen = [set() for _ in evs]
+        earlier = [[] for _ in evs]          # inputs already evaluated on each evaluator (for the replay)
         with tempfile.TemporaryDirectory() as tmp:
             for step in range(rng.randint(3, 9)):
                 i = rng.randrange(len(evs))
@@ -115,6 +116,13 @@ def run(ctx):
                             p.reshape(-1)[rng.randrange(p.size)] = rng.choice([0, 1, 2, 3, 4, 5, 6])
                     if cfgs[i]["input"] == "semantic":
                         p, r = (p != 0).astype("uint8"), (r != 0).astype("uint8")
+                        if rng.random() < 0.6:
+                            # speckled two-class maps of varying dimensionality (diagonal contacts, touching classes): whatever an
+                            # evaluator resolved on an earlier input (e.g. the default backend for its ndim) must not stick
+                            r = np.array([rng.choice([0, 0, 0, 1, 1, 2]) for _ in range(r.size)], dtype="uint8").reshape(r.shape)
+                            p = r.copy()
+                            for _k in range(rng.randint(0, 3)):
+                                p.reshape(-1)[rng.randrange(p.size)] = rng.choice([0, 1, 2])
                     opts = {"result_all": rng.random() < 0.8, "save_group_times": rng.choice([None, True, False]),
                             "log_times": rng.choice([None, True, False]), "verbose": rng.choice([None, True, False])}
                     hp, hr = digest(p), digest(r)
@@ -135,7 +143,9 @@ def run(ctx):
                         a = canon_out(out)
                     if a != b:
                         ctx.violation("evaluate on a used evaluator / with options differs from a fresh evaluator",
-                                      {"cfg": jcfg(cfgs[i]), "pred": p, "ref": r, "opts": opts, "history": hist, "observed": a, "fresh": b})
+                                      {"cfg": jcfg(cfgs[i]), "pred": p, "ref": r, "opts": opts, "history": hist, "observed": a, "fresh": b,
+                                       "earlier_inputs": list(earlier[i][-4:])})
+                    earlier[i].append({"pred": p.copy(), "ref": r.copy(), "opts": opts})
                     if not isinstance(out, tuple):
                         eff = opts["save_group_times"] if opts["save_group_times"] is not None else cfgs[i]["sgt"]
                         for g, (res, _) in out.items():
@@ -203,6 +213,34 @@ def run(ctx):
 
 
 def replay(path):
-    print(open(path).read()[:1500])
-    print("replay: histories are regenerated from the seed; re-run ./check C15 with the same VERIF_SEED")
-    return 1
+    common.serial_pool()
+    d = json.loads(open(path).read())
+    print("what:", d.get("what", "")[:300] if isinstance(d.get("what"), str) else "")
+    if "pred" not in d or "cfg" not in d:
+        print(json.dumps(d)[:1500])
+        print("replay: this history is regenerated from the seed; re-run ./check C15 with the same VERIF_SEED")
+        return 1
+    cfg = dict(d["cfg"])
+    if cfg.get("groups_spec"):
+        from harness.props.c12 import groups_from_spec
+        cfg["groups"] = groups_from_spec({n: tuple(v) for n, v in cfg["groups_spec"].items()})
+
+    def mk():
+        ev = impl.make_evaluator(cfg)
+        if cfg.get("sgt"):
+            ev.set_log_group_times(True)
+        return ev
+    used = mk()
+    for h in d.get("earlier_inputs", []):
+        impl.evaluate(used, common.arr_from_json(h["pred"]), common.arr_from_json(h["ref"]), **h.get("opts", {}))
+    pred, ref = common.arr_from_json(d["pred"]), common.arr_from_json(d["ref"])
+    out = impl.evaluate(used, pred.copy(), ref.copy(), result_all=True)
+    exp = impl.evaluate(mk(), pred.copy(), ref.copy(), result_all=True)
+    a, b = canon_out(out), canon_out(exp)
+    print(f"evaluator used for {len(d.get('earlier_inputs', []))} earlier input(s):", str(a)[:600])
+    print("fresh evaluator:", str(b)[:600])
+    if a != b:
+        print("DIFFER")
+        return 1
+    print("same (the recorded difference needs the other steps of the history: re-run ./check C15 with the same VERIF_SEED)")
+    return 0
